@@ -22,7 +22,9 @@ func main() {
 	p := checks.LoadProgram([]string{os.Args[1]}, h)
 	var args []checks.Arg
 	for _, a := range os.Args[4:] {
-		if v, err := strconv.Atoi(a); err == nil {
+		if strings.HasPrefix(a, "s:") {
+			args = append(args, checks.S(a[2:]))
+		} else if v, err := strconv.Atoi(a); err == nil {
 			args = append(args, checks.I(v))
 		} else {
 			args = append(args, checks.S(a))
